@@ -16,13 +16,13 @@ LEVEL_TEXT = ('Lean 4 theorems about an executable list model of Spectrum whose 
               'one value per wavelength) is preserved by crop/trim/pad/append/resample and by every history, also when an operation is refused; '
               'crop keeps exactly the closed range and is covariant under a change of unit (crop_scale_covariant); trim keeps first-to-last '
               'sample above tolerance; retained samples are unaltered; `integrate s a b` is linear in the values and additive at a sample '
-              '(integrate_linear, integrate_additive_at_sample), the trapezoid sum is exact on globally linear data; both rules return one bin per centre (bin_length); trapezoid bins of a non-negative spectrum are non-negative (bin_trapz_nonneg, about `bin` itself) '
+              '(integrate_linear, integrate_additive_at_sample) and exact for piecewise-linear data (trapz_exact_piecewise_linear, integrate_exact_piecewise_linear: equal to the sum over segments of the increments of a primitive of each segment\'s line; trapz_exact_linear_segment for one global line); both rules return one bin per centre (bin_length); trapezoid bins of a non-negative spectrum are non-negative (bin_trapz_nonneg, about `bin` itself), exact for a spectrum linear across every bin (bin_trapz_exact_linear); Simpson bins with symmetric ends are non-negative (bin_simps_nonneg_symmetric) '
               'and, with power preservation, sum to integrate over the centres\' span; refusals leave the spectrum (append/resample/trim/pad) or an emptied grid (crop).')
-LEVEL_NOTE = ('partial: exactness of trapezoid bins for spectra linear across each bin, exactness for piecewise-linear data, '
-              'non-negativity/exactness of Simpson bins and every scipy.integrate.simpson clause are oracle-only. Open known finding KF-C15-bin-integer-centres. '
+LEVEL_NOTE = ('partial: non-negativity of Simpson bins for ends="inside" / integer-dtype centres / under preserve_power, exactness of Simpson bins '
+              'and every scipy.integrate.simpson clause are oracle-only. Open known finding KF-C15-bin-integer-centres. '
               'Trusted: scipy interp1d(kind=linear) = piecewise-linear interpolant with fill; np.linspace, np.delete, np.trapz as modelled.')
 TECHNIQUE = 'Lean 4 proof (induction over lists and over operation histories) about a hand model + per-step differential correspondence at ℚ'
-GEN = ['SpectrumOps']
+GEN = ['SpectrumOps', 'Units']
 OPS = ['C15']
 RULE = ('streams: histories, integrate, setvalue (sample/bin, assign `value`/`wave`, sample/bin again on the same object), bin (own/other/default unit, integer-dtype centres int16/32/64 up to the top of the range), unit (sample/resample across units), extremes (number scales, histories > 32 ops in search/thorough). histories of 5..12 (quick) / 5..30 (thorough) operations drawn from crop/trim/pad/append/resample with parameters relative to the '
         'current range (inside, at, and outside it; refusals included: non-increasing grids, overlapping appends, wrong lengths, '
@@ -33,17 +33,15 @@ RULE = ('streams: histories, integrate, setvalue (sample/bin, assign `value`/`wa
 TRUSTED = ['scipy.interpolate.interp1d(kind="linear", bounds_error=False, fill_value=…) is the piecewise-linear interpolant with fill',
            'np.linspace(a,b,n)[i] = a + i(b-a)/(n-1); np.delete/np.where/np.append/np.hstack semantics; np.trapz',
            'scipy.integrate.simpson (used by integrate(method="simps") and by preserve_power with simps) is taken from the implementation']
-UNPROVEN = ['non-negativity of Simpson bins (trapezoid: bin_trapz_nonneg, about `bin` itself, with and without power preservation)',
-            'exactness of integration for piecewise-linear (not globally linear) data',
+UNPROVEN = ['non-negativity of Simpson bins for ends="inside", integer-dtype centres, or with preserve_power (symmetric ends without it: bin_simps_nonneg_symmetric)',
             'Simpson binning with integer-dtype centres (open known finding KF-C15-bin-integer-centres: mid-points truncated)',
-            'Simpson bins: positivity of the weights and exactness for linear spectra on uniform centres (oracle only)',
-            'trapezoid bins are exact for spectra linear across each bin (oracle only; the theorem proved is exactness of the trapezoid '
-            'integral on linear data)',
+            'Simpson bins: exactness for linear spectra on uniform centres (oracle only)',
             'integrate(method="simps") (scipy.integrate.simpson is not modelled)',
-            'non-negativity of Simpson bins under preserve_power (scipy.integrate.simpson can be negative on non-uniform data)']
-ASSUMPTIONS = ['preserve_power divides by the sum of the un-normalised bins: when that sum is zero (e.g. all centres outside the data with fill 0) the code returns nan/inf; such calls are counted (tag bin:non-finite) and only checked for agreement with the model\'s zero raw sum',
+            ]
+ASSUMPTIONS = ['append() ignores the wavelength unit of the appended spectrum (its numbers are appended as they are and keep the caller\'s unit label): generated (tag append:other-unit), model and oracle follow the code — the result is well-formed, which is all the property claims; reported as an observation',
+               'preserve_power divides by the sum of the un-normalised bins: when that sum is zero (e.g. all centres outside the data with fill 0) the code returns nan/inf; such calls are counted (tag bin:non-finite) and only checked for agreement with the model\'s zero raw sum',
                'bin(interp_method="simps", preserve_power=True) raises ValueError (from scipy.integrate.simpson) when no data sample lies inside the span of the centres; such calls are outside the modelled scope',
-               'spectra are 1-D with finite data; histories run in nm (also at x2^-30 and x2^10 number scales); sample, resample and bin are also run with abscissae in another unit or the default nm (the code converts a copy)',
+               'spectra are 1-D with finite data; histories run under every unit label (nm/um/angstrom/m; also at x2^-30 and x2^10 number scales); sample, resample and bin are also run with abscissae in another unit or the default nm (the code converts a copy)',
                'histories continue after a refusal with the object as the refused call left it']
 
 OPK = ['crop', 'trim', 'pad', 'append', 'resample']
@@ -98,6 +96,12 @@ def generate(rng, tier):
             out.append({'kind': 'history', 'wave': w, 'value': v, 'ops': [_op(rng) for _ in range(int(rng.integers(lmin, lmax + 1)))]})
             # the same grids at metre-like (x 2^-30 ~ 1e-9) and large (x 2^10) magnitudes: the operations must not depend on the
             # absolute size of the wavelength numbers (exact: powers of two), and histories of more than 32 operations
+            # the spectrum's unit label (the resizing operations work on the numbers; arguments are given in the spectrum's unit);
+            # an appended spectrum may carry ANOTHER unit label: append ignores it (observation, tag append:other-unit)
+            if rng.integers(0, 3) == 0:
+                out[-1]['unit'] = UNITS[int(rng.integers(0, 4))]
+                for o in out[-1]['ops']:
+                    if o['k'] == 'append' and rng.integers(0, 2): o['ounit'] = UNITS[int(rng.integers(0, 4))]
             r = int(rng.integers(0, 40 if tier == 'quick' else 6))
             if r < 2:
                 hs = [2.0 ** -30, 2.0 ** 10][r]
@@ -144,6 +148,15 @@ def generate(rng, tier):
         out.append({'kind': 'unit', 'wave': w, 'value': v, 'unit': u, 'req': 'nm' if r == 2 else UNITS[int(rng.integers(0, 4))], 'omit_unit': r == 2,
                     'fr': [FR[int(x)] for x in sorted(rng.choice(len(FR), int(rng.integers(1, 6)), replace=False))],
                     'fill': [0.0, 1.5, [0.5, 2.0]][int(rng.integers(0, 3))], 'vu': [None, 'wlam'][int(rng.integers(0, 2))]})
+    # integer-dtype centres at the top of a small dtype's range, trapezoid rule, linear spectra (exact bins known): arithmetic
+    # carried out in the centres' dtype overflows here
+    for i in range({'quick': 3, 'thorough': 40, 'search': 40}[tier]):
+        w, _v = _spec(rng, n=int(rng.integers(4, 10)))
+        a_, b_ = dyadic(rng, 0, 2, 3), dyadic(rng, 0, 8, 3)
+        out.append({'kind': 'bin', 'wave': w, 'value': [a_ * x + b_ for x in w], 'linear': [a_, b_], 'm': int(rng.integers(3, 7)), 'uniform': bool(rng.integers(0, 2)),
+                    'fa': 0.25, 'fb': [0.75, 1.0][int(rng.integers(0, 2))], 'jit': [int(x) / 8 for x in rng.integers(0, 7, 8)], 'simps': False,
+                    'ends': ['symmetric', 'inside'][int(rng.integers(0, 2))], 'pp': False, 'fill': 0.0, 'unit': 'nm', 'req': 'nm', 'omit_unit': bool(rng.integers(0, 2)),
+                    'cen_int': True, 'cen_dtype': ['int16', 'int32'][int(rng.integers(0, 2))], 'wscale': True})
     # the same object sampled / binned, given new values through the `value` setter (and new wavelengths through `wave`), and
     # sampled / binned again: the second answers must be those of the new data
     for i in range(max(n // 12, 10)):
@@ -163,7 +176,7 @@ def _vals(c):
     return v.astype(np.int64) if c.get('dtype') == 'int' else v
 
 def signature(c):
-    if c['kind'] == 'history': return 'history%s n=%d %s %s' % ('' if 'hscale' not in c else '*%g' % c['hscale'], len(c['wave']), ','.join(o['k'] for o in c['ops']), c['wave'][:2])
+    if c['kind'] == 'history': return 'history%s%s n=%d %s %s' % (c.get('unit', ''), '' if 'hscale' not in c else '*%g' % c['hscale'], len(c['wave']), ','.join(o['k'] for o in c['ops']), c['wave'][:2])
     if c['kind'] == 'setvalue': return 'setvalue n=%d %s %s %s %s' % (len(c['wave']), c['fr'], c['shift'], c['method'], c['wave'][:2])
     if c['kind'] == 'unit': return 'unit %s>%s%s n=%d %s %s' % (c['unit'], c['req'], '*' if c['omit_unit'] else '', len(c['wave']), c['fr'], c['wave'][:2])
     if c['kind'] == 'integrate': return 'integrate n=%d %s %s %s' % (len(c['wave']), c['a'], c['b'], c['wave'][:2])
@@ -175,7 +188,7 @@ def nontrivial(c):
 
 def tags(c):
     t = [c['kind'], 'dtype:' + c.get('dtype', 'float')]
-    if c['kind'] == 'history': t += sorted({'op:' + o['k'] for o in c['ops']}) + ['scale:%g' % c.get('hscale', 1.0)] + (['long-history'] if len(c['ops']) > 32 else [])
+    if c['kind'] == 'history': t += sorted({'op:' + o['k'] for o in c['ops']}) + ['scale:%g' % c.get('hscale', 1.0), 'history-unit:' + c.get('unit', 'nm')] + (['append:other-unit'] if any(o.get('ounit') not in (None, c.get('unit', 'nm')) for o in c['ops']) else []) + (['long-history'] if len(c['ops']) > 32 else [])
     if c['kind'] == 'bin':
         t += ['bin:' + ('simps' if c['simps'] else 'trapz'), 'bin:' + c['ends'], 'bin:unit=' + c['unit'], 'bin:pp=%s' % c['pp'],
               'bin:requested=' + ('default' if c.get('omit_unit') else 'own' if c.get('req', c['unit']) == c['unit'] else 'other')]
@@ -252,7 +265,7 @@ def _impl(c):
         warnings.simplefilter('ignore')
         k = c['kind']
         if k == 'history':
-            s = R.Spectrum(np.array(c['wave']), _vals(c), waveunit='nm')
+            s = R.Spectrum(np.array(c['wave']), _vals(c), waveunit=c.get('unit', 'nm'))
             steps = []
             for o in c['ops']:
                 if np.size(s.wave) > 1500: break          # repeated pads grow the grid geometrically: stop the history there
@@ -265,7 +278,7 @@ def _impl(c):
                 if p['k'] == 'append':
                     # the other spectrum must itself be constructible; otherwise the step is a no-op
                     try:
-                        p['_other'] = R.Spectrum(np.array(p['wave']), np.array(p['value']), waveunit='nm'); p['_valid'] = False
+                        p['_other'] = R.Spectrum(np.array(p['wave']), np.array(p['value']), waveunit=o.get('ounit', c.get('unit', 'nm'))); p['_valid'] = False
                     except ValueError:
                         steps.append({'p': {kk: v for kk, v in p.items() if not kk.startswith('_')}, 'before': before, 'after': before, 'exc': None, 'skipped': True}); continue
                 exc, ret = None, None
